@@ -749,6 +749,35 @@ def walk_files(rep, prefix, kind, quick):
                              {"T": T, "Sizes": sizes, "WithReads": "TRUE", "AllowPop": "FALSE", "MaxElems": 100000,
                               "GrowUntil": depth // 3, "ShrinkFrom": depth - depth // 3 - 10},
                              "MC_Array T=%d (multi-run histories)" % T, {"cfg": {"T": T}}, prefix + "-mrh-a", num, depth)
+    if kind == "nested":
+        files, n = sim_histories(rep, "Nested.tla", "Nested.cfg", {"MaxC": 8, "MaxE": 8, "Sizes": "{12, 60, 110}", "Persist": "FALSE"},
+                                 "Nested walks (multi-run histories)", {"cfg": {"T": 256}}, prefix + "-mrh-n", 48 if quick else 400, 100 if quick else 200)
+        # scripted family: one parent slab whose inlined children carry several distinct type infos, each used several times
+        # (shared / de-duplicated type information in the inlined-extra-data section)
+        fam = []
+        for parent in ("A", "M"):
+            for pattern in (["A", "A", "M", "M"], ["A", "M", "A", "M", "C", "C"], ["C", "A", "C", "A"], ["M", "M", "A", "A", "A"]):
+                h = [["root", 1, "A"]]
+                p, nxt, sid = 1, 2, 1
+                if parent == "M":
+                    h.append(["n.appc", 1, nxt, "M", 0]); p = nxt; nxt += 1
+                for i, kd in enumerate(pattern):
+                    if parent == "A":
+                        h.append(["n.appc", p, nxt, kd, i % 2])
+                    else:
+                        h.append(["n.msetc", p, i + 1, 5, nxt, kd, i % 2])
+                    if kd == "A":
+                        h.append(["n.app", nxt, sid, 12, 0])
+                    else:
+                        h.append(["n.mset", nxt, 1, 5, sid, 12, 0, False, 0])
+                    sid += 1
+                    nxt += 1
+                h.append(["n.settype", p + 1 if parent == "A" else p, 45])
+                fam.append(h)
+        for i, h in enumerate(fam):
+            with open(files[i % len(files)], "a") as f:
+                f.write(json.dumps(h) + "\n")
+        return files, n + len(fam)
     T, nkeys, mode, ksz, vs, num, depth = (256, 40, "spread", 5, "{12, 40, 60}", 48 if quick else 300, 120 if quick else 300)
     return sim_histories(rep, "MC_MapWalk.tla", "MC_MapWalk.cfg",
                          {"Keys": keyset(nkeys), "DigMode": '"%s"' % mode, "KSz": ksz, "VSizes": vs,
@@ -785,7 +814,7 @@ def compact_family(rep, prefix, tcfg, what):
                     for how in ("get", "iter"):
                         for victim in range(n):
                             for key in range(1, nk + 1):
-                                for act in ("rem", "set", "add"):
+                                for act in ("rem", "set", "add", "detach-rem", "settype"):
                                     h = [["root", 1, "A"]]
                                     p = 1
                                     nxt = 2
@@ -817,7 +846,16 @@ def compact_family(rep, prefix, tcfg, what):
                                     else:
                                         h.append(["n.iter", p])
                                     v = kids[victim]
-                                    if act == "rem":
+                                    if act == "detach-rem":
+                                        # the child is removed from its parent and kept by the caller, then mutated through its handle
+                                        if parent == "A":
+                                            h.append(["n.rem", p, victim, True, v])
+                                        else:
+                                            h.append(["n.mrem", p, victim + 1, 5, True, v])
+                                        h.append(["n.mrem", v, key, 5, False, 0])
+                                    elif act == "settype":
+                                        h.append(["n.settype", v, 46])
+                                    elif act == "rem":
                                         h.append(["n.mrem", v, key, 5, False, 0])
                                     elif act == "set":
                                         h.append(["n.mset", v, key, 5, next(ids), 12, 0, False, 0])
@@ -1132,6 +1170,32 @@ def check_C07(rep):
                 "brand-new storage and projected; the cold forest (elements in order, sizes, counts, type info, seeds, sibling links, "
                 "header copies, inlined children) must EQUAL the forest of the in-memory slabs that produced the registers, and satisfy TreeInv")
     persist_stages(rep, "c07", "C07", "decoded registers differ from the slabs that produced them")
+    nested_stages(rep, "c07", "NestedTrace_C07.cfg", "register does not round-trip / header flags do not describe the slab")
+
+
+def check_C06(rep):
+    rep.rule = ("size bookkeeping (reported size = prefix(kind, root?, inlined?) + element sizes, header copies, counts) is recomputed by "
+                "TreeInv on the forest projected after EVERY operation of TLC-explored array histories, map histories under all digest "
+                "assignments and simulated walks (SizesAgree); at every commit the harness measures, on each raw register, the length of the "
+                "encoding without the root's extra-data section and the shared inlined-extra-data section, whether the sibling link is present, "
+                "the size reported by the slab decoded from the register and by the in-memory slab; EncodedLenRelation requires reported = body "
+                "(+16 for a non-root data slab without sibling link), '<=' when the shared section holds compact-map data, decoded size = in-memory "
+                "size = the size in the projected forest; nested walks cover inlined arrays / maps / compact maps, wrapped values, collision groups, references")
+    quick = rep.tier == "quick"
+    persist_stages(rep, "c06", "C06", "reported slab size differs from the bytes written")
+    map_collide_stage(rep, "MapTrace_C06.cfg", "map size bookkeeping is wrong", "c06", 255, 3, (1, 60) if quick else (1, 4))
+    nested_stages(rep, "c06", "NestedTrace_C06.cfg", "reported slab size differs from the bytes written")
+    # bulk-built containers: every size stream over edge sizes, then bulk build; the result's bookkeeping must agree too
+    maxel = 6 if quick else 7
+    files, n, total = model_histories(rep, "MC_Array.tla", "MC_Array.cfg",
+                                      {"EmitEdges": "TRUE", "MaxElems": maxel, "T": 256, "Sizes": "{8, 20, 60, 70, 117}", "AppendOnly": "TRUE"},
+                                      "MC_Array append-only: all size streams up to %d elements (bulk-built copies)" % maxel,
+                                      {"cfg": {"T": 256}}, (lambda ops, key: frac(key + rep.seed, 1, 3)) if quick else None, "c06-streams")
+    base = len(rep.distinct)
+    rep.distinct.update(range(base, base + n))
+    hist_stage(rep, "c06-array-streams", probe_cmd("array-run", "batch,copy", rep), "array", "ArrayTrace.tla", "ArrayTrace_C06.cfg", files, "edge",
+               "bulk-built / copied container reports a size that disagrees with its content")
+    rep.level = "model_checking"
 
 
 def check_C08(rep):
@@ -1143,8 +1207,11 @@ def check_C08(rep):
                 {"name": "commit-every-op", "sched": "every", "mode": "det", "workers": 2, "faults": 0},
                 {"name": "random-commit-drop-reopen", "sched": "random", "mode": "det", "workers": 3, "faults": 0},
                 {"name": "commit-reopen", "sched": "reopen", "mode": "det", "workers": 1, "faults": 0},
-                {"name": "commit-dropcache", "sched": "drop", "mode": "nondet", "workers": 4, "faults": 0}]
-    for kind in ("array", "map"):
+                {"name": "commit-dropcache", "sched": "drop", "mode": "nondet", "workers": 4, "faults": 0},
+                {"name": "dropcache-without-commit", "sched": "droponly", "mode": "det", "workers": 2, "faults": 0},
+                {"name": "independent-commits-and-evictions", "sched": "mixed", "mode": "det", "workers": 2, "faults": 0},
+                {"name": "independent-commits-and-evictions-relaxed", "sched": "mixed", "mode": "nondet", "workers": 3, "faults": 0}]
+    for kind in ("array", "map", "nested"):
         files, n = walk_files(rep, "c08", kind, quick)
         base = len(rep.distinct)
         rep.distinct.update(range(base, base + n))
@@ -1171,7 +1238,7 @@ def check_C04(rep):
                 {"name": "64-workers", "sched": "end", "mode": "det", "workers": 64, "faults": 0},
                 {"name": "order-relaxed-4-workers", "sched": "end", "mode": "nondet", "workers": 4, "faults": 0}]
     envs = [{"GOMAXPROCS": "1"}, {"GOMAXPROCS": "16"}] if quick else [{"GOMAXPROCS": "1"}, {"GOMAXPROCS": "2"}, {"GOMAXPROCS": "16"}, {"GOMAXPROCS": "5"}]
-    for kind in ("array", "map"):
+    for kind in ("array", "map", "nested"):
         files, n = walk_files(rep, "c04", kind, quick)
         base = len(rep.distinct)
         rep.distinct.update(range(base, base + n))
@@ -1201,6 +1268,7 @@ CHECKS = {
     "C03": check_C03,
     "C04": check_C04,
     "C05": check_C05,
+    "C06": check_C06,
     "C07": check_C07,
     "C09": check_C09,
     "C10": check_C10,
